@@ -8,6 +8,7 @@ dispatcher.  Conventions (DESIGN.md section 2):
     an entry of known_findings.json (then KNOWN-FINDING line, exit 0);
   * evidence/<id>.json is rewritten on every run.
 """
+import threading
 import fcntl
 import json
 import os
@@ -131,6 +132,7 @@ class TlcResult:
 
 
 _tlc_seq = [0]
+_tlc_lock = threading.Lock()
 
 
 def tlc(module, cfg=None, workers=None, env=None, timeout=900, simulate=None, depth=None,
@@ -141,8 +143,10 @@ def tlc(module, cfg=None, workers=None, env=None, timeout=900, simulate=None, de
     simulate: None or number of traces (per worker).  dfs: use the StateDeque queue.
     expect_ok=True raises Broken for any non-zero exit that is not a property violation.
     """
-    _tlc_seq[0] += 1
-    meta = os.path.join(BUILDROOT, "tlc", "%d_%d_%s" % (os.getpid(), _tlc_seq[0], module))
+    with _tlc_lock:  # tlc() is called from thread pools: the metadir must be unique per run
+        _tlc_seq[0] += 1
+        seq = _tlc_seq[0]
+    meta = os.path.join(BUILDROOT, "tlc", "%d_%d_%s" % (os.getpid(), seq, module))
     os.makedirs(meta, exist_ok=True)
     # keep the JVM's own thread count proportional to the TLC workers: many trace validations run
     # side by side and the default (one GC/JIT thread per core each) oversubscribes the machine
